@@ -69,6 +69,12 @@ def make_interp(ctx):
                 raise AbsRaise('AttributeError', node, implicit=True)
             base.calls.append((name, list(args), dict(kwargs)))
             log_event('mock', base.name, name, args, dict(kwargs))
+            if base.name in ('RLock', 'Lock') and name in ('acquire', '__enter__'):
+                log_event('with-enter', base)       # explicit acquire()/release() count like the with statement
+                return True
+            if base.name in ('RLock', 'Lock') and name in ('release', '__exit__'):
+                log_event('with-exit', base)
+                return None
             f = base.script.get(name)
             if f is not None:
                 return f(interp, base, args, kwargs, node)
